@@ -887,7 +887,10 @@ class Exec:
                 if ml and isinstance(v, Opaque):
                     return Slice(Arr('const', bv(int(ml.group(1)))), bv(0), bv(int(ml.group(1))))
             if isinstance(v, ElemPtr) and re.search(r'GenericArray<', ty):
-                return with_prov(ElemPtr(v.arr, v.idx, cast=norm(ty)), v.prov)
+                nv = with_prov(ElemPtr(v.arr, v.idx, cast=norm(ty)), v.prov)
+                if getattr(v, 'epoch', None) is not None:
+                    nv.epoch = v.epoch
+                return nv
             if isinstance(v, ArrRef) and re.fullmatch(r'\*(const|mut) (T|MaybeUninit<T>)', norm(ty)):
                 return with_prov(ElemPtr(v.arr, bv(0)), v.prov)
             if 'Transmute' in m.group(3) and isinstance(v, Slice):
@@ -2019,6 +2022,16 @@ class Exec:
             return R(b.ptr if isinstance(b, BoxVal) else b)
         if re.match(r'Box::<.*>::from_raw', c):
             p = args[0]
+            if isinstance(p, ElemPtr) and 'GenericArray<T, N>' in c and p.arr in st.notes.get('cap', {}):
+                # a pointer into a Vec's buffer re-boxed as Box<GenericArray<T, N>>
+                blk_ = next((b_ for b_ in st.blocks if b_.arr is p.arr), None)
+                if blk_ is not None:
+                    if getattr(p, 'epoch', None) is not None:
+                        s.require(st, z3.BoolVal(p.epoch == st.notes.get('epoch', {}).get(p.arr, 0)), 'pointer into a Vec buffer used after a call that may have moved the buffer (stale pointer)', where)
+                    s.require(st, p.idx == 0, 'Box::from_raw on a pointer that is not the start of the block', where)
+                    s.require(st, z3.Or(st.notes['cap'][p.arr] == s.N, s.S == 0), 'heap block re-boxed under a layout (N elements) that differs from the one it was allocated with', where)
+                    st.blocks[blk_] = 'boxed'
+                    return R(BoxVal(BlockPtr(blk_), init=True))
             if isinstance(p, Slice) and getattr(p, 'block', None) is not None and 'GenericArray<T, N>' in c:
                 # re-boxing a slice allocation as Box<GenericArray<T, N>>: it will be freed with the layout of N elements
                 cap = st.notes.get('cap', {}).get(p.arr)
@@ -2055,7 +2068,16 @@ class Exec:
             return R(with_prov(Slice(v['arr'], v['len'], st.notes['cap'][v['arr']]), 'mut'))
         if re.match(r'Vec::<T>::as_(mut_)?ptr$', c):
             v = st.get(args[0].cell, args[0].path)
-            return R(ElemPtr(v['arr'], bv(0)))
+            pv = ElemPtr(v['arr'], bv(0))
+            pv.epoch = st.notes.get('epoch', {}).get(v['arr'], 0)      # the buffer may move at the next call that changes the capacity
+            return R(pv)
+        if re.match(r'Vec::<T>::shrink_to_fit$', c):
+            v = st.get(args[0].cell, args[0].path)
+            st.notes = dict(st.notes)
+            st.notes['cap'] = dict(st.notes.get('cap', {})); st.notes['cap'][v['arr']] = v['len']
+            st.notes['epoch'] = dict(st.notes.get('epoch', {})); st.notes['epoch'][v['arr']] = st.notes['epoch'].get(v['arr'], 0) + 1
+            st.events.append('Vec::shrink_to_fit (capacity := len; the buffer may have moved)')
+            return R(UNIT)
         if re.match(r'^<Vec<T> as Extend<T>>::extend::<', c):
             # std: for item in iter { reserve if full; write at len; len += 1 } - the length is published per item, so an unwinding Vec owns what was pushed
             vref, it = args
